@@ -236,6 +236,50 @@ theorem chain_id_shape :
     getChainIdBody = ["var chainIdStr string", "if nil != Genesis && 0 != len(Genesis.ChainId) { chainIdStr = Genesis.ChainId } else { chainIdStr = ChainId(height) }", "chainId, _ := big.NewInt(0).SetString(chainIdStr, 10)", "return chainId"] ∧
     isProposal001Body = ["return isForked(LocalChainConfig.Proposal001Block, height)"] ∧ isForkedBody = ["return height >= base"] := ⟨rfl, rfl, rfl, rfl⟩
 
+/-- The signing path the model's `frontierSigValues`, `eip155SigValues`, `withSignature`,
+    `signTx155`, `nativeSignBytes` follow: size check → panic, `sig[64] + 27` and `sig[64] + 35` in
+    byte arithmetic, the `chainId.Sign() != 0` guard (the chain-id-0 quirk), `WithSignature`
+    replacing exactly R, S, V, `SignTx` = Hash → Sign → WithSignature, the native wrapper's
+    `sig[64] += 27` (absent in the eth_crypto copy). -/
+theorem sign_path_shape :
+    signPathBodies = ["FrontierSigner.SignatureValues: if len(sig) != crypto.SignatureLength { panic(fmt.Sprintf('wrong size for signature: got %d, want %d', len(sig), crypto.SignatureLength)) }",
+      "FrontierSigner.SignatureValues: r = new(big.Int).SetBytes(sig[:32])",
+      "FrontierSigner.SignatureValues: s = new(big.Int).SetBytes(sig[32:64])",
+      "FrontierSigner.SignatureValues: v = new(big.Int).SetBytes([]byte{sig[64] + 27})",
+      "FrontierSigner.SignatureValues: return r, s, v, nil",
+      "EIP155Signer.SignatureValues: R, S, V, err = HomesteadSigner{}.SignatureValues(tx, sig)",
+      "EIP155Signer.SignatureValues: if err != nil { return nil, nil, nil, err }",
+      "EIP155Signer.SignatureValues: if s.chainId.Sign() != 0 { V = big.NewInt(int64(sig[64] + 35)) V.Add(V, s.chainIdMul) }",
+      "EIP155Signer.SignatureValues: return R, S, V, nil",
+      "HomesteadSigner.SignatureValues: return hs.FrontierSigner.SignatureValues(tx, sig)",
+      "Transaction.WithSignature: r, s, v, err := signer.SignatureValues(tx, sig)",
+      "Transaction.WithSignature: if err != nil { return nil, err }",
+      "Transaction.WithSignature: cpy := &Transaction{ data: tx.data, time: tx.time, }",
+      "Transaction.WithSignature: cpy.data.R, cpy.data.S, cpy.data.V = r, s, v",
+      "Transaction.WithSignature: return cpy, nil",
+      ".SignTx: h := s.Hash(tx)",
+      ".SignTx: sig, err := crypto.Sign(h[:], prv)",
+      ".SignTx: if err != nil { return nil, err }",
+      ".SignTx: return tx.WithSignature(s, sig)",
+      "PrivateKey.Sign: var sign Sign",
+      "PrivateKey.Sign: sig, err := secp256k1.Sign(hash, pk.PrivKey.D.Bytes())",
+      "PrivateKey.Sign: if err == nil { if len(sig) != 65 { fmt.Printf('secp256k1 sign wrong! hash = %v\n', hash) } sign = *BytesToSign(sig) } else { panic(fmt.Sprintf('Sign Failed, reason : %v.\n', err.Error())) }",
+      "PrivateKey.Sign: return sign",
+      "secp256k1.Sign: sig[64] = byte(recid)",
+      "secp256k1.Sign: sig[64] += 27",
+      "eth_crypto/secp256k1.Sign: sig[64] = byte(recid)"] := rfl
+
+/-- `eth_tx.Sender`: cached address returned only when the cached signer `Equal`s the current one
+    (EIP-155: same chain id); the cache is written only after a successful derivation. -/
+theorem sender_cache_shape :
+    senderCacheBody = ["if sc := tx.from.Load(); sc != nil { sigCache := sc.(sigCache) if sigCache.signer.Equal(signer) { return sigCache.from, nil } }",
+      "addr, err := signer.Sender(tx)",
+      "if err != nil { return common.Address{}, err }",
+      "tx.from.Store(sigCache{signer: signer, from: addr})",
+      "return addr, nil",
+      "eip155, ok := s2.(EIP155Signer)",
+      "return ok && eip155.chainId.Cmp(s.chainId) == 0"] := rfl
+
 theorem signer_call_order :
     eip155SenderCalls = ["tx.Protected", "HomesteadSigner{}.Sender", "tx.ChainId().Cmp", "tx.ChainId",
       "new(big.Int).Sub", "new", "V.Sub", "recoverPlain", "s.Hash"] ∧
